@@ -39,6 +39,11 @@ def _history(draw):
     if kind == "rigid":
         spec["qs"] = [[draw(gen.f(-2, 2)) for _ in range(3)] + draw(gen.near_unit_quat()) for _ in range(3)]
         spec["us"] = [[draw(gen.f(-2, 2)) for _ in range(6)] for _ in range(3)]
+        if draw(st.booleans()):
+            # coordinate vectors that differ in one component only, by values whose Python hashes coincide
+            # (hash(-1.0) == hash(-2.0)): a cache keyed on hash(args) instead of the arguments confuses them
+            spec["qs"][1] = list(spec["qs"][0]); spec["qs"][2] = list(spec["qs"][0])
+            spec["qs"][1][2], spec["qs"][2][2] = -1.0, -2.0
         methods = ["A_IB", "A_IB_q", "r_OP", "r_OP_q", "v_P", "v_P_q", "J_P", "J_P_q", "a_P"]
         changers = ["step_callback", "overwrite_q"]
     elif kind == "rod":
@@ -51,8 +56,13 @@ def _history(draw):
         methods = ["r_OP", "A_IB", "r_OP_q", "A_IB_q", "v_P", "J_P", "E_pot", "h", "h_q"]
         changers = ["step_callback", "set_reference_strains", "overwrite_q"]
     elif kind == "s2s":
-        spec["b1"] = draw(build.rigid_body(unit=True))
+        # first subsystem: a rigid body or a Frame with prescribed (time-dependent) motion
+        spec["b1"] = draw(st.one_of(build.rigid_body(unit=True), build.rigid_body(unit=True), build.frame_body(moving=True, rotating=False)))
         spec["b2"] = draw(st.one_of(build.rigid_body(unit=True), build.point_mass()))
+        if spec["b1"]["kind"] == "frame":
+            spec["b1"]["motion"]["c0"] = [-1.0, 0.0, 0.0]
+            for k in ("c1", "c2", "a"):
+                spec["b1"]["motion"][k] = (0.3 * np.array(spec["b1"]["motion"][k])).tolist()
         spec["b1"]["r"] = [-1.0, 0.0, 0.0]
         spec["b2"]["r"] = [1.0, 0.3, -0.2]
         spec["dqs"] = [[draw(gen.f(-0.4, 0.4)) for _ in range(14)] for _ in range(3)]
@@ -67,7 +77,7 @@ def _history(draw):
         changers = []
     spec["ts"] = [0.0, draw(gen.f(0.1, 1.0)), draw(gen.f(1.0, 2.0))]
     spec["xis"] = [0.0, 1.0, 0.5, draw(gen.f(0.0, 1.0))]
-    spec["Bs"] = [[0.0, 0.0, 0.0], draw(gen.vec3(-2, 0, allow_zero=False))]
+    spec["Bs"] = [[0.0, 0.0, 0.0], draw(gen.vec3(-2, 0, allow_zero=False)), [0.0, 0.0, -1.0], [0.0, 0.0, -2.0]]
     ops = []
     for _ in range(draw(st.integers(2, 40))):
         if changers and draw(st.integers(0, 4)) == 0:
@@ -75,7 +85,7 @@ def _history(draw):
                         "u": draw(st.integers(0, 2)), "src": draw(st.integers(0, 2))})
         else:
             ops.append({"op": draw(st.sampled_from(methods)), "t": draw(st.integers(0, 2)), "q": draw(st.integers(0, 2)),
-                        "u": draw(st.integers(0, 2)), "xi": draw(st.integers(0, 3)), "B": draw(st.integers(0, 1)),
+                        "u": draw(st.integers(0, 2)), "xi": draw(st.integers(0, 3)), "B": draw(st.integers(0, 3)),
                         "el": draw(st.integers(0, 2))})
     spec["ops"] = ops
     return spec
@@ -129,7 +139,7 @@ def check(spec):
             Bs = [np.array(b, dtype=float) for b in spec["Bs"]]
 
             def ev(op):
-                t, q, u, B = ts[op["t"]], qs[op["q"]], us[op["u"]], Bs[op["B"]]
+                t, q, u, B = ts[op["t"]], qs[op["q"]], us[op["u"]], Bs[op["B"] % len(Bs)]
                 m = op["op"]
                 if m in ("A_IB", "A_IB_q"):
                     return getattr(body, m)(t, q)
@@ -159,7 +169,7 @@ def check(spec):
             base = [q.copy() for q in qs]
 
             def ev(op):
-                t, q, u, B, xi = ts[op["t"]], qs[op["q"]], us[op["u"]], Bs[op["B"]], float(spec["xis"][op["xi"]])
+                t, q, u, B, xi = ts[op["t"]], qs[op["q"]], us[op["u"]], Bs[op["B"] % len(Bs)], float(spec["xis"][op["xi"]])
                 m = op["op"]
                 if m == "E_pot":
                     return np.array([system.E_pot(t, q)])
